@@ -127,6 +127,53 @@ fn run(sh: &mut Shard) {
             }
         }
     }
+    // a loop with an exit as the LAST of N+1 elements / arguments (N operands are pending when the exit runs), N
+    // around every power of two to 1 025 (4 097), at top level and in a function, one and two levels of lists
+    {
+        use crate::gen::*;
+        use nederlang::verif::{Operator, Stmt};
+        let mut ns: Vec<usize> = vec![0, 1, 2, 3, 100];
+        for k in 2..=(if tier == crate::shard::Tier::Quick { 10 } else { 12 }) {
+            let n = 1usize << k;
+            ns.extend([n - 1, n, n + 1]);
+        }
+        for n in ns {
+            for exit in [Stmt::Break, Stmt::Continue] {
+                let looped = whil(
+                    infix(id("i"), Operator::Lt, int(3)),
+                    vec![es(assign(id("i"), infix(id("i"), Operator::Add, int(1)))), es(iff(infix(id("i"), Operator::Eq, int(2)), vec![exit.clone()], None)), es(assign(id("s"), infix(id("s"), Operator::Add, int(10))))],
+                );
+                // (the value of a loop that iterated is U4: the element is a branch that runs the loop and then yields 7)
+                let looped = iff(boolean(true), vec![es(looped), es(int(7))], None);
+                let mut elems: Vec<nederlang::verif::Expr> = (0..n).map(|k| int(1000 + k as i64)).collect();
+                elems.push(looped.clone());
+                let flat = vec![let_("i", int(0)), let_("s", int(0)), let_("l", array(elems.clone())), es(array(vec![calln("lengte", vec![id("l")]), id("s"), id("i"), if n > 0 { index(id("l"), int(0)) } else { int(0) }, if n > 0 { index(id("l"), int(n as i64 - 1)) } else { int(0) }]))];
+                let half = n / 2;
+                let mut outer: Vec<nederlang::verif::Expr> = (0..half).map(|k| int(k as i64)).collect();
+                let mut inner: Vec<nederlang::verif::Expr> = (half..n).map(|k| int(k as i64)).collect();
+                inner.push(looped.clone());
+                outer.push(array(inner));
+                let nested = vec![let_("i", int(0)), let_("s", int(0)), let_("l", array(outer)), es(array(vec![calln("lengte", vec![id("l")]), calln("lengte", vec![index(id("l"), int_lit(-1))]), id("s"), id("i")]))];
+                for body in [flat, nested] {
+                    for in_function in [false, true] {
+                        if !sh.mine() {
+                            continue;
+                        }
+                        let prog: Vec<Stmt> = if in_function { vec![es(call(func("", &[], body.clone()), vec![]))] } else { body.clone() };
+                        sh.begin(&|| format!("exit behind {n} pending operands (in a function: {in_function})"));
+                        sh.count("slice:exit-behind-pending-operands");
+                        if let Some(r) = differential(sh, "semantics", &prog, opts()) {
+                            if !matches!(r.model.end, End::Unspec(_) | End::Diverge) {
+                                sh.nontrivial(&printer::program(&prog));
+                            } else {
+                                sh.count("exit-behind-pending-operands-unspecified");
+                            }
+                        }
+                    }
+                }
+            }
+        }
+    }
     // integers that coincide with a function's packed entry offset and slot count
     slices::descriptor_literal_programs(if tier == crate::shard::Tier::Quick { 160 } else { 2_000 }, &mut |prog| {
         if !sh.mine() {
